@@ -829,9 +829,17 @@ class JinjaTemplater(PythonTemplater):
                     in_str, syntax_tree, undefined_variables
                 ),
             )
-        except (TemplateError, TypeError, ValueError, ArithmeticError) as err:
-            # ArithmeticError covers expressions in the template itself which
-            # fail when rendered, e.g. {{ 1/0 }}.
+        except (
+            TemplateError,
+            TypeError,
+            ValueError,
+            ArithmeticError,
+            LookupError,
+            RuntimeError,
+        ) as err:
+            # ArithmeticError, LookupError and RuntimeError cover expressions in
+            # the template itself which fail when rendered, e.g. {{ 1/0 }},
+            # {{ [].pop() }} or a macro which recurses forever.
             # ValueError is caught to handle multi-variable for-loop unpacking
             # failures, e.g. {% for key, val in undefined_var.items() %} raises
             # "not enough values to unpack" because the undefined stub yields
